@@ -25,8 +25,8 @@ import time
 import traceback
 
 VERIF = os.path.dirname(os.path.dirname(os.path.abspath(__file__)))
-EVIDENCE_DIR = os.path.join(VERIF, "evidence")
-REPLAY_DIR = os.path.join(VERIF, "replays")
+EVIDENCE_DIR = os.environ.get("VERIF_EVIDENCE_DIR") or os.path.join(VERIF, "evidence")   # overridden only by tools/eval_seed_wt.sh
+REPLAY_DIR = os.environ.get("VERIF_REPLAY_DIR") or os.path.join(VERIF, "replays")
 FINDINGS_FILE = os.path.join(VERIF, "known_findings.json")
 GUARD = "SPARSESPACE_VERIF"
 
@@ -122,8 +122,10 @@ def safe_run_case(run_case, case):
     try:
         with quiet():
             res = run_case(case)
-    except HarnessError:
-        raise
+    except HarnessError as e:
+        # the implementation did not follow the decision script that was derived from its own state (or a recorded history no
+        # longer replays): on a correct tree this never happens, so it is reported like any other failure of the case
+        res = {"failures": [fail("driver_did_not_follow_script", str(e), key={})]}
     except Exception as e:  # an exception escaping the oracle is reported as a failure of the case
         tb = traceback.format_exc(limit=6)
         res = {"failures": [fail("exception", "%s: %s\n%s" % (type(e).__name__, e, tb),
@@ -260,6 +262,16 @@ class Context:
             if lines[-1].split()[1] != da:
                 raise HarnessError("fresh-process replay differs from in-process run for case %r" % (case,))
         self.notes.append("determinism probe ok (2 in-process runs + 1 fresh process): %s" % digest(case))
+
+    def derive_history(self, config, depth, pick=lambda evs: evs[len(evs) // 2]):
+        """a history that is valid for the implementation as it is now: follow one enabled event per step"""
+        h = []
+        for _ in range(depth):
+            res = safe_run_case(self.run_case, {"config": config, "history": h, "want_events": True})
+            if not res["events"]:
+                break
+            h = h + [pick(res["events"])]
+        return h
 
     # -- finish: confirm violations by fresh replay, write replay files and evidence
     def finish(self, rule, assumptions, extra=None):
